@@ -59,7 +59,9 @@ def r1(repo, res, canon, pc, logic):
         res.bad('C09.R1', f, None, 'no allocation store', 'BatchProcessing never proposes an allocation')
     for n, k, v in stores:
         V = pc.p(v, fr)
-        ok = V.startswith(src + '[') and V.endswith(']')
+        # an element of the reserved list: src[i] or src.pop(i); "src or an empty list" has the same elements
+        V2 = V.replace('{%s|[]}' % src, src).replace('{[]|%s}' % src, src)
+        ok = (V2.startswith(src + '[') and V2.endswith(']')) or (V2.startswith(src + '.pop(') and V2.endswith(')'))
         what = 'allocations[t] at line %d <- reserved machines of this workflow' % n.lineno
         if not ok:
             res.bad('C09.R1', f, n, what, 'BatchProcessing proposes %s, which is not one of the machines reserved for '
